@@ -15,7 +15,8 @@ META = {
              "integer and wire arguments"),
     "required": ["monitor:tracked-list", "monitor:hugr-equality", "monitor:index-error", "feature:mixed-args",
                  "feature:untrack", "feature:metadata", "feature:set_tracked_outputs",
-                 "feature:set_indexed_outputs", "feature:extend", "feature:rebinding-to-other-port"],
+                 "feature:set_indexed_outputs", "feature:extend", "feature:rebinding-to-other-port",
+                 "feature:command-object-reused"],
     "reach": ["hugr.build.tracked_dfg:TrackedDfg.add", "hugr.build.tracked_dfg:TrackedDfg.tracked_wire",
               "hugr.build.tracked_dfg:TrackedDfg.untrack_wire", "hugr.build.tracked_dfg:TrackedDfg.set_tracked_outputs"],
     "assumptions": ["non-negative indices only (negative indexing into the tracked list is not part of the statement)",
@@ -94,6 +95,18 @@ def gen_script(r, max_steps):
                     break
             if len(cmds) == 1:
                 sc["steps"].append(["add", cmds[0]])
+                c0 = cmds[0]
+                if (r.random() < 0.2 and c0["args"] and all(isinstance(a, int) for a in c0["args"])
+                        and all(a < len(tracked) and tracked[a] is not None for a in c0["args"])
+                        and OPS.get(c0["op"], ("", ""))[0] == OPS.get(c0["op"], ("", "x"))[1]):
+                    # the SAME Command object handed to add() a second time (a pre-built gate applied again):
+                    # its indices must be read afresh; only for ops that map each argument type to itself
+                    sc["steps"].append(["add_again"])
+                    k = nadd
+                    nadd += 1
+                    ins_, outs_ = OPS[c0["op"]]
+                    for j, t in enumerate(outs_):
+                        wires.append((["out", k, j], t))
             else:
                 for c in cmds:
                     c["md"] = None
@@ -157,22 +170,31 @@ def run_script(ctx, sc, stratum="script"):
                                         for g, w in zip(got, want)):
             bad("tracked-list", step, [repr(w) for w in want], [repr(g) for g in got])
 
-    def do_add(cmd, step, via_extend=False):
+    last = {"cmd": None, "com": None}
+
+    def do_add(cmd, step, via_extend=False, again=None):
         args = cmd["args"]
         untracked = [a for a in args if isinstance(a, int) and not (a < len(model) and model[a] is not None)]
         op_t, op_p = mk_op(cmd), mk_op(cmd)
         targs = [a if isinstance(a, int) else W[key(a)][0] for a in args]
         ctx.count("monitor:index-error")
+        com = again if again is not None else op_t(*targs)
+        before = list(com.incoming)
         try:
             if via_extend:
-                (n,) = td.extend(op_t(*targs))
-            elif cmd.get("md") is not None:
-                n = td.add(op_t(*targs), metadata=dict(cmd["md"]))
+                (n,) = td.extend(com)
+            elif cmd.get("md") is not None and again is None:
+                n = td.add(com, metadata=dict(cmd["md"]))
             else:
-                n = td.add(op_t(*targs))
+                n = td.add(com)
             got = "ok"
         except IndexError:
             got = "IndexError"
+        last["cmd"], last["com"] = cmd, com
+        if list(com.incoming) != before:
+            # not a violation in itself (the statement is about what gets wired); what matters is decided by the
+            # re-use of the same command object in "add_again" steps
+            ctx.count("observed:command-modified-by-add")
         want = "IndexError" if untracked else "ok"
         if got != want:
             bad("index-error", [step, args], want, got)
@@ -185,7 +207,7 @@ def run_script(ctx, sc, stratum="script"):
         if cmd.get("md") is not None:
             ctx.feat("feature:metadata")
         pargs = [W[model[a]][1] if isinstance(a, int) else W[key(a)][1] for a in args]
-        if cmd.get("md") is not None and not via_extend:
+        if cmd.get("md") is not None and not via_extend and again is None:
             pn = pd.add_op(op_p, *pargs, metadata=dict(cmd["md"]))
         else:
             pn = pd.add_op(op_p, *pargs)
@@ -237,6 +259,11 @@ def run_script(ctx, sc, stratum="script"):
                 model[i] = None
         elif k == "add":
             do_add(st[1], si)
+        elif k == "add_again":
+            if last["com"] is None:
+                return info
+            ctx.feat("feature:command-object-reused")
+            do_add(last["cmd"], si, again=last["com"])
         elif k == "extend":
             ctx.feat("feature:extend")
             cmds = st[1]
